@@ -10,6 +10,7 @@ package lexer
 //@ func (*LexState).lexErr
 //@   maypanic
 //@   ensures false
+//@   termination [C16]
 //
 //@ func (*LexState).next
 //@   requires lexOK(ls)
@@ -21,15 +22,19 @@ package lexer
 //@ func isNewLine
 //@   pure
 //@   ensures result == (b == 13 || b == 10)
+//@   termination [C16]
 //@ func isNumber
 //@   pure
 //@   ensures result == ((b >= 48 && b <= 57) || b == 45)
+//@   termination [C16]
 //@ func isHexNumber
 //@   pure
 //@   ensures result == ((b >= 97 && b <= 102) || (b >= 65 && b <= 70))
+//@   termination [C16]
 //@ func isLetter
 //@   pure
 //@   ensures result == ((b >= 97 && b <= 122) || (b >= 65 && b <= 90) || b == 95)
+//@   termination [C16]
 //
 //@ func (*LexState).incLine
 //@   requires lexOK(ls) && ls.current != 0
